@@ -34,13 +34,16 @@ P = {
          "Relations (ND-neutrality, TD:N => 0, temporal <= base) are checked on every vector of the finite domains (v2 TD:N on every sub-score key in quick, all 28 M in thorough); no spec oracle involved.", "4/C13", TB),
  "C14": (True, "runtime monitor: differential between the views of a higher-level object and an independent lower-level decode of the projected token list",
          "Every temporal/environmental corpus vector: BaseMetrics(), TemporalMetrics(), nested views and exported embedded objects must report what an independent lower-level decoder reports for the projection.", "4/C14", TB),
- "C15": (False, "", "", "4/C15", TB),
- "C16": (False, "", "", "4/C16", TB),
+ "C15": (True, "runtime monitor: per-object history monitor (exported state compared after every operation, every result compared with the first, twins before/after), mutate/query/restore steps, cross-process order-permutation differential, before/after API snapshot of all package tables",
+         "Bounded random query histories on thousands of objects of all six types and origins; the same multiset of (vector, operation) pairs executed by several child processes in different orders and by cold single-pair processes must give identical digests; repeated lookups expose duplicated codes.", "4/C15", TB),
+ "C16": (True, "Go race detector (-race build, GORACE halt_on_error=0 + log_path, reports counted from log files and de-duplicated by outermost library frame pair) over a concurrent stress workload with cold starts; concurrent-vs-sequential result differential; offline overlap-matrix analysis of the recorded call/return history",
+         "The race detector generalises over timing for every pair of accesses it sees; the workload shares decoded objects and report objects between 8-64 goroutines without any synchronisation of the monitor's own, makes the first library use of every process concurrent, and repeats rounds until every operation pair has actually overlapped; says nothing about code the workload did not reach.", "4/C16", TB),
  "C17": (True, "runtime monitor: reflection-enumerated report fields against the harness's wiring table (field -> metric/level/names function), all base vectors x levels x languages",
          "Every exported field of the three report structs, including shadowed fields through embedded reports, is compared for every base vector with seeded extensions chosen so that neighbouring like-typed metrics differ (counted), in English, Japanese and other languages.", "4/C17", TB),
  "C18": (True, "runtime monitor: exhaustive enumeration of the 52 names functions x enumeration integers x language tags with totality/injectivity/fallback oracles; registry completeness via go/parser",
          "The whole finite domain of functions x values is executed for English and Japanese; the fallback is executed for 37 tags whose language is neither (incl. lookalike codes enm/jam/jv); regional variants are exercised but not judged.", "4/C18", TB),
- "C19": (False, "", "", "4/C19", TB),
+ "C19": (True, "runtime monitor: differential against Go's text/template (same toolchain) on a seeded template grammar (valid and invalid) x reports of three levels x two languages; reader-equivalence monitor; fault injection through the caller-supplied io.Reader (failing after k bytes, nil reader, nil report)",
+         "All template texts is an unbounded set: the monitor decides the templates it generates (20 k quick / 1 M thorough), including failures that strike after output was produced; readers of many shapes must be equivalent to the string path.", "4/C19", TB),
  "C20": (True, "runtime monitor: exhaustive per-metric table check (codes, constants by name, weights as identical float64, dependent weights) + all strings of length <= 3 as codes, lookups repeated for map-iteration nondeterminism",
          "Finite tables: every code, every enumeration integer, every dependent-weight combination is executed; 'every other string' is covered by all alphanumeric strings up to length 3 (4 upper-case in thorough) plus adversarial ones.", "4/C20", TB),
 }
